@@ -1,4 +1,9 @@
 /* included BEFORE the real sources of the req TU */
+/* completion log of depth two: req.c's completion calls go through vpx_* (post.h), which remember the
+ * completion BEFORE the last one, so that a function that completes two aios can be specified exactly */
+#define nni_aio_finish vpx_aio_finish
+#define nni_aio_finish_sync vpx_aio_finish_sync
+#define nni_aio_finish_error vpx_aio_finish_error
 #define VP_PROTO_GHOSTS 1
 #include "include/env_proto.h"
 #define VP_RR_GHOSTS 1
@@ -11,9 +16,14 @@
 void *g_sock;           /* the socket */
 void *g_c1, *g_c2;      /* contexts */
 void *g_p1, *g_p2, *g_pp3;      /* pipes */
-void *g_aio2;           /* a second user aio (harness object) */
+void *g_aio1, *g_aio2, *g_aio3; /* user aios (harness objects): A = the parameter, B = another send aio, C = another receive aio */
 /* ownership ghost (C03/D9): "context g_c1 (resp. g_c2) holds a reference of its own to its req_msg" */
 bool g_own1, g_own2;
 /* environment of nni_copyin_ms */
 bool         g_copyin_ok;
 nni_duration g_copyin_val;
+/* the completion before the last one (see top of this file) */
+nni_aio *g_fin_prev;
+int      g_fin_prev_rv;
+nni_msg *g_fin_prev_msg;
+#define VPX_FIN_GHOSTS g_fin_prev, g_fin_prev_rv, g_fin_prev_msg
